@@ -55,15 +55,15 @@ func failM(c *sim.Ctx, m *mismatch, ctx string) {
 // real migrators
 
 type realCase struct {
-	e     *env
-	w     *world
-	f0    flags // flags of the first start
-	fF    flags // flags of the last start (superset)
-	seed  uint64
-	ref   *memory.Database // final image of the uninterrupted run with fF
-	nOps  int
-	nCom  int
-	aux   func() *toy
+	e    *env
+	w    *world
+	f0   flags // flags of the first start
+	fF   flags // flags of the last start (superset)
+	seed uint64
+	ref  *memory.Database // final image of the uninterrupted run with fF
+	nOps int
+	nCom int
+	aux  func() *toy
 }
 
 func (rc *realCase) binary(f flags) binary {
@@ -212,7 +212,9 @@ func runReal(e *env, cls int) {
 			rin := inject{schedSeed: mix(rc.seed, uint64(im.k)), tag: fmt.Sprintf("rec%d", im.k)}
 			wantNested := nested < 3 && t.Chance("nested", 1, 6)
 			if wantNested {
-				rin.images = func(k int, info opInfo, img *memory.Database) { inner = append(inner, image{k: k, info: info, img: img}) }
+				rin.images = func(k int, info opInfo, img *memory.Database) {
+					inner = append(inner, image{k: k, info: info, img: img})
+				}
 			}
 			r := rc.finish(im.img, rc.fF, rin, fmt.Sprintf("crash after commit %d of %d (%s)", im.k, rc.nCom, stage), "crash")
 			c.Logf("crash image %d/%d after %s: recovered ops=%d commits=%d", im.k, rc.nCom, im.info, r.ops, r.commits)
@@ -649,10 +651,10 @@ func runBeyond(e *env) {
 // toy migrations: the runner's bookkeeping
 
 type toySpec struct {
-	units    int
-	optional bool
-	script   []outcome
-	wrap     bool
+	units       int
+	optional    bool
+	script      []outcome
+	wrap        bool
 	nilOnCancel bool
 }
 
